@@ -171,10 +171,14 @@ def s_if(c, a, b):
     return a
   if not is_z3(a) and not is_z3(b) and type(a) == type(b) and a == b:
     return a
+  abool = isinstance(a, bool) or (is_z3(a) and a.sort() == z3.BoolSort())
+  bbool = isinstance(b, bool) or (is_z3(b) and b.sort() == z3.BoolSort())
+  if abool and bbool:
+    r = z3.simplify(z3.If(c, tolit(a), tolit(b)))
+    v = val(r)
+    return v if v is not None else r
   if not is_z3(a) and not is_z3(b):
-    if isinstance(a, bool) and isinstance(b, bool):
-      a, b = z3.BoolVal(a), z3.BoolVal(b)
-    elif isinstance(a, int) and isinstance(b, int):
+    if isinstance(a, int) and isinstance(b, int):
       if a == b:
         return a
       a, b = z3.IntVal(a), z3.IntVal(b)
